@@ -1,4 +1,5 @@
 """C14 — the liveness monitor closes dead sessions and only dead sessions (structural clauses)."""
+import re
 from engine.anl.origin import fmt, subterms
 from engine.anl.casts import const_value
 from engine.anl.conds import place_ty
@@ -240,6 +241,107 @@ def r6_monitor_is_the_only_silence_rule(ctx):
            "exceeds it and a session whose peer answers every request is closed" % wrapped[0].norm.split("::")[-1])
 
 
+def _nonzero_at(body, cfg, conds, o, term, bb):
+    """the integer `term` is proven non-zero at block bb: a positive lower bound from shape/guards, or a dominating `!= 0` edge"""
+    from engine.anl.casts import range_of
+    from engine.anl.origin import strip_bb
+    used = []
+    lo, hi = range_of(body, cfg, conds, o, term, bb, used)
+    if (lo is not None and lo >= 1) or (hi is not None and hi <= -1):
+        return True
+    key = strip_bb(term)
+    for c in conds.all():
+        t = c.term
+        if c.kind != "bool" or not (isinstance(t, tuple) and t and t[0] == "binop" and t[1] in ("Eq", "Ne")):
+            continue
+        a, b = t[2], t[3]
+        if const_value(b) == 0 and strip_bb(a) == key or const_value(a) == 0 and strip_bb(b) == key:
+            edges = c.edges_for(t[1] == "Ne")
+            if edges and cfg.edges_dominate(edges, bb):
+                return True
+    return False
+
+
+def r7_zero_period_is_not_accepted(ctx):
+    """`tokio::time::interval` panics on a zero period, inside the detached monitor task: the client keeps running without any
+    liveness monitor and a silent peer is never closed.  The command line therefore must not accept 0 for the check interval:
+    every integer it turns into the pool's `check_interval` is proven non-zero (by the parser it comes from or at the store)."""
+    from .common import ok_return_blocks
+    sites = []
+    for key, body in ctx.P.scan():
+        if not key.startswith("anytls_client::"):
+            continue
+        o = None
+        for bi in sorted(body.reachable()):
+            for st in body.blocks[bi]["stmts"]:
+                if st["s"] != "assign":
+                    continue
+                pr = st["place"]["proj"]
+                vals = []
+                if pr and pr[-1].get("p") == "field" and pr[-1].get("name") == "check_interval":
+                    o = o or ctx.origins(body)
+                    vals.append(o._rvalue(st["rv"], (), bi, 0, frozenset()))
+                elif st["rv"]["r"] == "aggregate" and "check_interval" in (st["rv"]["kind"].get("fields") or []) and str(st["rv"]["kind"].get("adt", "")).endswith("SessionPoolConfig"):
+                    o = o or ctx.origins(body)
+                    vals.append(o.of_operand(st["rv"]["ops"][st["rv"]["kind"]["fields"].index("check_interval")]))
+                for v in vals:
+                    for s_ in subterms(v):
+                        if is_call_term(s_, "Duration::from_secs", "Duration::from_millis", "Duration::from_micros", "Duration::from_nanos") and s_[3] and const_value(s_[3][0]) is None:
+                            sites.append((key, body, bi, st["span"]["line"], s_[3][0]))
+    if not sites:
+        ctx.ob("R14.7", "CLI:check-interval-not-settable", True, "", "the client binary does not derive the pool's check interval from a run-time integer")
+        return
+    for key, body, bi, line, x in sites:
+        ctx.bodies_touched.add(body.name)
+        cfg, conds, o = ctx.cfg(body), ctx.conds(body), ctx.origins(body)
+        ok = _nonzero_at(body, cfg, conds, o, x, bi)
+        how = "guarded non-zero at the store"
+        if not ok and isinstance(x, tuple) and x and x[0] == "call":
+            k = ctx.cg.resolve(body, re.sub(r"::<[^>]*>", "", x[1]))
+            f = ctx.P.bodies.get(k) if k else None
+            if f is not None:
+                ctx.bodies_touched.add(f.name)
+                fc, fcd, fo = ctx.cfg(f), ctx.conds(f), ctx.origins(f)
+                oks = ok_return_blocks(f, fo)
+                good = bool(oks)
+                for rb in oks:
+                    pay = None
+                    for st in f.blocks[rb]["stmts"]:
+                        if st["s"] == "assign" and st["rv"]["r"] == "aggregate" and st["rv"]["kind"].get("variant") == "Ok":
+                            pay = fo.of_operand(st["rv"]["ops"][0])
+                    if pay is None or not _nonzero_at(f, fc, fcd, fo, pay, rb):
+                        good = False
+                ok = good
+                how = "every Ok return of %s is guarded non-zero" % k.split("::")[-1]
+        ctx.ob("R14.7", "CLI:check-interval-is-never-zero", ok, "src/bin/client.rs:%s" % line, how if ok else
+               "the check interval is built from `%s`, which can be 0: the command line accepts `-I 0`, tokio::time::interval panics on a zero period inside the detached monitor task (and the pool's reaper), "
+               "the client keeps running without a liveness monitor and a server that falls silent is never closed" % fmt(x)[:100])
+
+
+def r8_give_up_test_is_taken_at_the_tick(ctx):
+    """the age compared with the timeout is measured at the tick, before this tick's probe is written: a write can wait for the
+    session's locks behind stream traffic, and time spent there is not silence of the peer (with timeout = interval, accepted by
+    the command line, any such wait closes a session whose peer answered every request)"""
+    hb = _heartbeat_task(ctx)
+    if hb is None:
+        return
+    cfg, conds, o = ctx.cfg(hb), ctx.conds(hb), ctx.origins(hb)
+    ticks = [c for c in hb.calls() if (c.norm or "").endswith("Interval::tick")]
+    ws = [c for c in calls_norm(hb, "Session::write_control_frame", "Session::write_frame") if any(isinstance(s, tuple) and s[0] == "agg" and s[2] == "HeartRequest" for s in subterms(o.of_operand(c.args[1])))]
+    gt = [c for c in conds.all() if c.kind == "bool" and is_call_term(c.term, "PartialOrd::lt", "PartialOrd>::lt", "PartialOrd::le") and any("timeout" in (s[1] if isinstance(s, tuple) and s[0] == "var" else "") for s in subterms(c.term))]
+    if not ticks or not ws or not gt:
+        ctx.missing("R14.8", "tick / HeartRequest write / give-up test in the monitor loop")
+        return
+    nows = sorted({s[2] for s in subterms(gt[0].term) if is_call_term(s, "Instant::now") and len(s) > 2 and isinstance(s[2], int)})
+    if not nows:
+        ctx.missing("R14.8", "Instant::now() reading of the give-up test")
+        return
+    ok, p = cfg.must_pass(cfg.succ(ticks[0].bb), [w.bb for w in ws], via_blocks=nows)
+    ctx.ob("R14.8", "monitor:age-is-read-before-the-probe-is-written", ok, ws[0].site, "between a tick and its HeartRequest the clock has already been read for the give-up test" if ok else
+           "the probe is written before the age is measured: the wait for the session's write locks (behind stream data on a slow uplink) is charged to the peer, and with timeout = interval a session whose peer answers "
+           "every request is closed", path=None if ok else render_path(hb, p))
+
+
 def run(ctx):
     from . import C20 as _C20t
     _C20t.r12_subtractions(ctx, _C20t.input_reachable(ctx))   # no subtraction (sizes, Durations) that can underflow and kill the task that computes it
@@ -247,6 +349,8 @@ def run(ctx):
     from . import effects
     effects.check_property(ctx, "C14")    # R14.E: no operation on shared protocol state outside the reviewed table
     r5_every_tick_probes(ctx)
+    r7_zero_period_is_not_accepted(ctx)
+    r8_give_up_test_is_taken_at_the_tick(ctx)
     C09.r4_close_body(ctx)    # giving up releases all waiters: close() drains streams before it waits for the transport
     from . import C08
     C08.r2_single_sender_owner(ctx)   # ... and dropping the table's sender is enough to release a reader only if nobody else holds a clone
